@@ -39,6 +39,9 @@ type ipTransport struct {
 	// Used to communicate between different parts of the program (e.g. successful pairing with HomeKit)
 	emitter event.Emitter
 
+	// Serializes updates of the reachability
+	reachabilityMutex sync.Mutex
+
 	ctx    context.Context
 	cancel context.CancelFunc
 
@@ -236,6 +239,10 @@ func (t *ipTransport) isPaired() bool {
 }
 
 func (t *ipTransport) updateMDNSReachability() {
+	// Pairings are added and removed by the handlers of different connections
+	t.reachabilityMutex.Lock()
+	defer t.reachabilityMutex.Unlock()
+
 	t.config.discoverable = t.isPaired() == false
 	if t.handle != nil {
 		t.handle.UpdateText(t.config.txtRecords(), t.responder)
